@@ -26,7 +26,7 @@ func VerifR14EditDuringSync() {
 	// B's edit reaches the server first
 	vEdit(b, "b0", typ, 20)
 	s.sync(1, b)
-	if zzvsym.IntRange("aEditsBefore", 0, 1) == 1 {
+	if zzvsym.Tier() > 0 && zzvsym.IntRange("aEditsBefore", 0, 1) == 1 {
 		vEdit(a, "a0", typ, 10)
 	}
 	// A's sync is in flight ...
